@@ -269,9 +269,11 @@ class Image(Traversable):
                 ))
                 alternate_sample = sample_dict.get(alternate_name)
                 # the stored names, too, may differ in the final letter only
+                # (stored names can be blank-padded: Roland's 16-character fields)
                 if (
                     alternate_sample is not None 
-                    and alternate_sample.name[:-1] == sample.name[:-1]
+                    and alternate_sample.name.rstrip()[:-1] 
+                        == sample.name.rstrip()[:-1]
                 ):
                     alternate_sample = cast(Sample, alternate_sample)
                     if alternate_ending == "R":
